@@ -534,6 +534,7 @@ def c02(ctx):
     multi_dynamic(ctx, QUICK_CONFIGS if ctx.tier == "quick" else ALL_CONFIGS, make, oracle, keep,
                   "SSE/AVX/dispatcher vs portable", "C02")
     intrinsic_crosscheck(ctx, get_impl(ctx, "release"), per=60 if ctx.tier == "quick" else 3000)
+    facts_gate(ctx, "C02")     # translator tie: the SSE / AVX kernels re-translated from the source just now are the models
     proof_verdict(ctx, ok)
 
 
@@ -1607,6 +1608,7 @@ def c03(ctx):
     ensure_model(ctx)
     from . import miri
     miri.neon(ctx)
+    facts_gate(ctx, "C03")     # translator tie: the NEON kernel re-translated from the source just now is the model
     proof_verdict(ctx, ok)
 
 
@@ -1618,6 +1620,7 @@ def c04(ctx):
     ensure_model(ctx)
     from . import miri
     miri.wasm(ctx)
+    facts_gate(ctx, "C04")     # translator tie: the Wasm kernel re-translated from the source just now is the model
     proof_verdict(ctx, ok)
 
 
